@@ -45,6 +45,8 @@ type fakeRelay struct {
 	wsRecvDelay             time.Duration // the first WebSocket receive dial is answered this late
 	wsSendDials, wsSendOpen int           // WebSocket send sockets dialled / still open
 	wsRecvDials             int           // WebSocket receive sockets dialled
+	grpcFinReceived         int           // gRPC face: FIN packets that reached the SendStream handler
+	grpcFinForwarded        int           // ... and that it passed on to the mailbox
 }
 
 func (r *fakeRelay) setFailClose(v bool) {
